@@ -128,3 +128,25 @@ Definition pk_ver (jws_text sig_text jwk_text : bytes) (all : bool) : option boo
       end
   | _, _ => None
   end.
+
+(* ---- the independent producer (for "tokens produced by the independent implementation verify in jose") ---- *)
+
+(* EMSA-PKCS1-v1_5 encoded message for RSnnn over a k-octet modulus; the private-key step is done
+   outside (untrusted witness) and checked by rs_verify *)
+Definition pk_rs_em (name : bytes) (k : nat) (m : bytes) : option bytes :=
+  emsa_pkcs1_v15_encode (di_of (rs_hash name)) (hash (rs_hash name) m) k.
+
+(* ECDSA with a supplied nonce: r || s at the curve's fixed width *)
+Definition pk_es_sign (name crv d k m : bytes) : option bytes :=
+  match curve_by_name crv with
+  | None => None
+  | Some cv =>
+      match ecdsa_sign B (curve_of B cv) (of_bytes B d) (of_bytes B k) (hash (es_hash name) m) with
+      | Some (r, s) =>
+          match to_bytes B r (bytes_len cv), to_bytes B s (bytes_len cv) with
+          | Some rb, Some sb => Some (rb ++ sb)
+          | _, _ => None
+          end
+      | None => None
+      end
+  end.
